@@ -175,12 +175,13 @@ Fixpoint lower (fuel : nat) (c : cst) (trail : list expr) {struct fuel} : option
       end
   end.
 
-Definition parse_expr (ts : list tok) : option expr :=
-  let fuel := 4 * length ts + 8 in
+Definition parse_fuel (fuel : nat) (ts : list tok) : option expr :=
   match expr_bp fuel 0 ts with
   | Some (c, []) => lower fuel c []
   | _ => None
   end.
+
+Definition parse_expr (ts : list tok) : option expr := parse_fuel (4 * length ts + 8) ts.
 
 (** the printer: only the necessary parentheses *)
 Definition level (e : expr) : nat :=
